@@ -76,13 +76,14 @@ class Raise(Contract):
 
 
 class GetBodyString(Contract):
-    props = ('C12', 'C13')
+    props = ('C12', 'C13', 'C18')
     file = 'ombott/request_pkg/body_mixin.py'
     qualname = 'BodyMixin._get_body_string'
     assumptions = ('the buffered body (BytesIO / TemporaryFile): seek(0) rewinds, read(n) returns at most n bytes for n >= 0',
                    'callee contract of _raise as proved: never returns, raises the mapped error (413 for BodySizeError)',
                    'max_memfile_size >= 0')
-    expected_labels = ('post.at_most_the_threshold_returned', 'raise.only_when_more_than_threshold', 'call.read_asks_at_most_threshold_plus_one')
+    expected_labels = ('post.at_most_the_threshold_returned', 'raise.only_when_more_than_threshold', 'call.read_asks_at_most_threshold_plus_one',
+                       'call.read_only_after_rewind')
 
     def pre(self, X):
         self.maxm = X.fresh(z3.IntSort(), 'max_memfile_size')
@@ -91,13 +92,17 @@ class GetBodyString(Contract):
         self.SizeErr = X.globals['BodySizeError']
         self.ReqErr = X.globals['RequestError']
         self.data = None
+        self.rewound = False
         c = self
 
         def seek(X, args, kwargs):
             X.prove('call.body_rewound', args[1].t == 0)
+            c.rewound = True
             return VInt(0)
 
         def read(X, args, kwargs):
+            # the buffered body is shared with request.body / forms / json of the same request: read it from its start
+            X.prove('call.read_only_after_rewind', z3.BoolVal(c.rewound))
             n = args[0].t if len(args) == 1 else args[1].t
             X.prove('call.read_asks_at_most_threshold_plus_one', z3.And(n >= 0, n <= c.maxm + 1))
             d = X.fresh(BytesSort, 'data')
